@@ -4,6 +4,7 @@ import (
 	"go/parser"
 	"go/token"
 	"strings"
+	"unicode"
 	"unicode/utf8"
 
 	"github.com/oapi-codegen/oapi-codegen/v2/pkg/codegen"
@@ -53,6 +54,25 @@ func corrComment(ctx *Ctx, n int) error {
 		if err != nil || len(f.Decls) != 1 {
 			ctx.Res.Violate("comment:escapes", "a description rendered by toGoComment does not stay inside its comment: "+clip(got, 200), J{"in": in, "prefix": prefix, "out": got})
 		}
+	}
+	// the blank test is strings.TrimSpace: the model's white space against unicode.IsSpace on every code point
+	{
+		var spaces []int
+		if err := ctx.Model(J{"fn": "commentSpaces"}, &spaces); err != nil {
+			return err
+		}
+		model := map[rune]bool{}
+		for _, c := range spaces {
+			model[rune(c)] = true
+		}
+		for c := rune(0); c <= unicode.MaxRune; c++ {
+			if unicode.IsSpace(c) != model[c] {
+				ctx.Res.Disagree("CORR unicode.IsSpace vs Comment.isSpace (every code point)", J{"code-point": int(c)}, model[c], unicode.IsSpace(c))
+				break
+			}
+		}
+		ctx.Res.Evaluations++
+		ctx.Res.Count("corr:comment:white-space-table-exhaustive")
 	}
 	// DeprecationComment goes through the same function with a fixed head
 	for _, reason := range []string{"", "use v2", "line1\nline2", "a\r\nb\rc", "*/ type X int"} {
